@@ -20,7 +20,8 @@
 (***************************************************************************)
 EXTENDS GossipCrashProps, Json, TLC
 
-CONSTANTS MCFlavours, MaxDev, Emit
+CONSTANTS MCFlavours, MaxDev, Emit,
+          HdrCost     \* deviations a non-ok envelope version / topic class counts for (quick 2: only with an otherwise canonical delivery)
 
 VARIABLES c, stage
 vars == <<c, stage>>
@@ -39,7 +40,7 @@ PartA(ty) ==
       [] ty = "keys"   -> [inst : BOOLEAN, set : Sets3, ents : EntClasses, idlen : {"fit", "off"}]
       [] ty = "eonpk"  -> [inst : BOOLEAN, pk : {"valid", "garbage", "empty"}, sig : SigQ \cup {"empty"}, big : BOOLEAN]
       [] ty = "trigger" -> [inst : BOOLEAN, block : {"known", "nocollator", "overflow"}, sig : SigQ \cup {"empty"}, idn : {"normal", "empty"}]
-      [] ty = "commitment" -> [inst : BOOLEAN, match : BOOLEAN, nids : {0, 1, 2}, idhex : {"ok", "nonhex"},
+      [] ty = "commitment" -> [inst : BOOLEAN, lens : {"eq", "idsMore", "txMore"}, nids : {0, 1, 2}, badid : {"none", "first", "last", "all"},
                                bidsig : {"valid", "v27", "garbage65", "long", "short", "empty", "nonhex"}, digest : {"ok", "short"},
                                block : {"known", "unknown", "negative"}]
 DevA(ty, a) ==
@@ -47,7 +48,7 @@ DevA(ty, a) ==
       [] ty = "keys"   -> B(~a.inst) + B(a.set # "MemberOk") + B(a.ents \notin {"one", "two"}) + B(a.idlen # "fit")
       [] ty = "eonpk"  -> B(~a.inst) + B(a.pk # "valid") + B(a.sig # "valid") + B(a.big)
       [] ty = "trigger" -> B(~a.inst) + B(a.block # "known") + B(a.sig # "valid") + B(a.idn # "normal")
-      [] ty = "commitment" -> B(~a.inst) + B(~a.match) + B(a.nids # 1) + B(a.idhex # "ok") + B(a.bidsig # "valid")
+      [] ty = "commitment" -> B(~a.inst) + B(a.lens # "eq") + B(a.nids # 1) + B(a.badid # "none") + B(a.bidsig # "valid")
                               + B(a.digest # "ok") + B(a.block # "known")
 
 (* part B: the oneof extra and its content (shares and keys only) *)
@@ -57,32 +58,39 @@ PartB(ty) ==
       [] ty = "keys"   -> [extra : Extras, slot : {"ok", "huge"}, txp : {"ok", "big", "huge"},
                            signers : {"good", "none", "fewer", "more", "dup", "unordered"},
                            lastidx : {"in", "n", "n1", "p31", "p32", "p63m1", "p63", "p64m1"},
-                           nsigs : {"eq", "none", "fewer", "more"}, sigq : SigQ]
+                           nsigs : {"eq", "none", "fewer", "more"}, sigq : SigQ, sigpos : {"all", "first", "last"}]
 DevB(ty, own, b) ==
     CASE ty = "shares" -> B(b.extra # own) + B(b.slot # "ok") + B(b.txp # "ok") + B(b.sig # "valid")
       [] ty = "keys"   -> B(b.extra # own) + B(b.slot # "ok") + B(b.txp # "ok") + B(b.signers # "good") + B(b.lastidx # "in") + B(b.nsigs # "eq") + B(b.sigq # "valid")
+
+(* the position of the bad signature means something only if there is one *)
+BOk(ty, b) == ty # "keys" \/ b.sigq # "valid" \/ b.sigpos = "all"
 
 Merge(ty, a, b) ==
     CASE ty = "shares" -> [ty |-> ty, inst |-> a.inst, set |-> a.set, snd |-> a.snd, ents |-> a.ents, idlen |-> a.idlen,
                            extra |-> b.extra, slot |-> b.slot, txp |-> b.txp, sig |-> b.sig]
       [] ty = "keys"   -> [ty |-> ty, inst |-> a.inst, set |-> a.set, ents |-> a.ents, idlen |-> a.idlen,
                            extra |-> b.extra, slot |-> b.slot, txp |-> b.txp, signers |-> b.signers, lastidx |-> b.lastidx,
-                           nsigs |-> b.nsigs, sigq |-> b.sigq]
+                           nsigs |-> b.nsigs, sigq |-> b.sigq, sigpos |-> b.sigpos]
 Whole(ty, a) ==
     CASE ty = "eonpk" -> [ty |-> ty, inst |-> a.inst, pk |-> a.pk, sig |-> a.sig, big |-> a.big]
       [] ty = "trigger" -> [ty |-> ty, inst |-> a.inst, block |-> a.block, sig |-> a.sig, idn |-> a.idn]
-      [] ty = "commitment" -> [ty |-> ty, inst |-> a.inst, match |-> a.match, nids |-> a.nids, idhex |-> a.idhex,
+      [] ty = "commitment" -> [ty |-> ty, inst |-> a.inst, lens |-> a.lens, nids |-> a.nids, badid |-> a.badid,
                                bidsig |-> a.bidsig, digest |-> a.digest, block |-> a.block]
 
 DevCap == 4
 (* evaluated once (TLCEval forces TLC's lazy function values) *)
 ALE == TLCEval([ty \in MsgTypes |-> TLCEval([d \in 0..DevCap |-> TLCEval({a \in PartA(ty) : DevA(ty, a) <= d})])])
 BLE == TLCEval([ty \in {"shares", "keys"} |-> TLCEval([own \in {"none", "gnosis", "service"} |->
-           TLCEval([d \in 0..DevCap |-> TLCEval({b \in PartB(ty) : DevB(ty, own, b) <= d})])])])
+           TLCEval([d \in 0..DevCap |-> TLCEval({b \in PartB(ty) : DevB(ty, own, b) <= d /\ BOk(ty, b)})])])])
 
 ASSUME MaxDev <= DevCap
 
-SDev(s) == B(s.ty # s.topic) + B(s.bytes # "none") + B(s.recv # "ready")
+VerClasses   == {"ok", "empty", "t1", "t2", "t3", "t4", "one", "dot0", "patch", "minor", "longer", "long", "nonascii"}
+TopicClasses == {"ok", "nil", "empty", "trunc", "upper", "sibling"}
+InstVals     == {"p1", "m1", "zero", "p63", "max"}
+
+SDev(s) == B(s.ty # s.topic) + B(s.bytes # "none") + B(s.recv # "ready") + HdrCost * (B(s.ver # "ok") + B(s.tp # "ok"))
 
 (* the two small extra families:
    send    gnosis / service keypers, shares topic, receiver "primed" (threshold of signatures and
@@ -91,20 +99,24 @@ SDev(s) == B(s.ty # s.topic) + B(s.bytes # "none") + B(s.recv # "ready")
    stress  access node, keys topic, receiver "ready", canonical message and the unknown / overflow set *)
 ModeOk(s) ==
     CASE s.mode = "handle" -> SDev(s) <= MaxDev
-      [] s.mode = "send"   -> s.fl \in {"gnosis", "service"} /\ s.topic = "shares" /\ s.ty = "shares" /\ s.bytes = "none" /\ s.recv = "primed"
-      [] s.mode = "stress" -> s.fl = "access" /\ s.topic = "keys" /\ s.ty = "keys" /\ s.bytes = "none" /\ s.recv = "ready"
+      [] s.mode = "send"   -> s.ver = "ok" /\ s.tp = "ok" /\ s.instv = "p1" /\ s.fl \in {"gnosis", "service"} /\ s.topic = "shares" /\ s.ty = "shares" /\ s.bytes = "none" /\ s.recv = "primed"
+      [] s.mode = "stress" -> s.ver = "ok" /\ s.tp = "ok" /\ s.instv = "p1" /\ s.fl = "access" /\ s.topic = "keys" /\ s.ty = "keys" /\ s.bytes = "none" /\ s.recv = "ready"
 BudgetA(s) == IF s.mode = "handle" THEN MaxDev - SDev(s) ELSE 1
-AOk(s, a) == IF s.mode # "stress" THEN TRUE ELSE (DevA(s.ty, a) = 0 \/ a.set # "MemberOk")
+(* the carried instance id value is a refinement of inst = FALSE *)
+AOk(s, a) == /\ (a.inst => s.instv = "p1")
+             /\ (IF s.ty = "commitment" THEN ~(a.lens = "idsMore" /\ a.nids = 0) ELSE TRUE)   \* no list shorter than the empty one
+             /\ IF s.mode # "stress" THEN TRUE ELSE (DevA(s.ty, a) = 0 \/ a.set # "MemberOk")
 BudgetB(s) == CASE s.mode = "handle" -> MaxDev - s.dev [] s.mode = "send" -> 1 - s.dev [] OTHER -> 0
 
 Init ==
     /\ stage = 0
     /\ \E fl \in MCFlavours : \E topic \in Topics(fl) : \E ty \in MsgTypes : \E by \in ByteClasses : \E rs \in RecvStates :
-       \E mo \in {"handle", "send", "stress"} :
-          /\ c = [fl |-> fl, topic |-> topic, ty |-> ty, bytes |-> by, recv |-> rs, dev |-> 0, mode |-> mo]
+       \E mo \in {"handle", "send", "stress"} : \E ve \in VerClasses : \E tp \in TopicClasses : \E iv \in InstVals :
+          /\ c = [fl |-> fl, topic |-> topic, ty |-> ty, bytes |-> by, recv |-> rs, dev |-> 0, mode |-> mo, ver |-> ve, tp |-> tp, instv |-> iv]
           /\ ModeOk(c)
 
-Case(s, m) == [fl |-> s.fl, topic |-> s.topic, m |-> m, bytes |-> s.bytes, recv |-> s.recv, mode |-> s.mode]
+Case(s, m) == [fl |-> s.fl, topic |-> s.topic, m |-> m, bytes |-> s.bytes, recv |-> s.recv, mode |-> s.mode,
+               ver |-> s.ver, tp |-> s.tp, instv |-> s.instv]
 
 Next ==
     \/ /\ stage = 0
@@ -113,6 +125,7 @@ Next ==
              /\ IF HasB(c.ty)
                 THEN /\ stage' = 1
                      /\ c' = [fl |-> c.fl, topic |-> c.topic, ty |-> c.ty, bytes |-> c.bytes, recv |-> c.recv, mode |-> c.mode,
+                              ver |-> c.ver, tp |-> c.tp, instv |-> c.instv,
                               dev |-> (IF c.mode = "handle" THEN SDev(c) ELSE 0) + DevA(c.ty, a), a |-> a]
                 ELSE /\ stage' = 2
                      /\ c' = Case(c, Whole(c.ty, a))
